@@ -3,6 +3,7 @@ import Ecal.Lemmas.C08Pratt
 import Ecal.Lemmas.C08Quote
 import Ecal.Lemmas.C08Minimal
 import Ecal.Lemmas.C08QuoteReal
+import Ecal.Lemmas.C08Templates
 /-!
 # C08 — formatting preserves program meaning and is idempotent
 
@@ -214,5 +215,36 @@ theorem raw_string_kind_witness :
   refine ⟨⟨[], true⟩, rfl, ?_⟩
   intro fuel
   cases fuel <;> simp [lexLit, printLit, Q.quote, Q.quoteBody, Q.scanBody, Q.unq]
+
+/-! ## templates on the REAL parser model (`Ecal.Parse.run`, the model of C07's `parse_wellformed`)
+
+Token level, comment-free. Proved so far: the terminal template and the prefix template (with a hole
+hypothesis in continuation form). NOT proved yet (covered by the correspondence run only): infix template
+on this model, assignment, if/elif/else, loops, try/except/otherwise/finally, func, return with value,
+import, sink, mutex, list / map literals, funccall, composition access, statement lists — and therefore
+`print_parse_stmt_partial`. -/
+
+/-- **Terminal template re-parses** (`break`, `continue`, `true`, `false`, `null`, number and string tokens):
+    a token whose null denotation is `ndTerm`, followed by a token that does not bind tighter than `rbp`, is
+    read back by `run` as its own node, and the parser stops at the follower. -/
+theorem template_terminal_reparses (f rbp bb : Nat) (t nx : Ecal.Lex.Tok) (rest : List Ecal.Lex.Tok)
+    (hn : TP.Real nx) (hterm : (TP.nodeOf bb t).nud = .term) (hb : (TP.nodeOf bb nx).binding ≤ rbp) :
+    Ecal.Parse.run (f+2) rbp (TP.st bb (TP.nodeOf bb t) (nx :: rest)) =
+      .ok (TP.nodeOf bb t) (TP.st bb (TP.nodeOf bb nx) rest) :=
+  TP.run_term f rbp bb t nx rest hn hterm hb
+
+/-- **Prefix template re-parses** (`not x`, `-x`, `+x`, `let x`, sink attributes `kindmatch x` … `suppresses x`):
+    if the hole's tokens are read back as `v` with right binding `binding + 20` and the parser then stands
+    in front of a token not binding tighter than `rbp`, keyword + hole is read back as the keyword's node
+    with the single child `v`. -/
+theorem template_prefix_reparses (f rbp bb : Nat) (t h : Ecal.Lex.Tok) (ts' : List Ecal.Lex.Tok)
+    (v nxn : Ecal.Parse.Node) (rest : List Ecal.Lex.Tok) (hh : TP.Real h)
+    (hpre : (TP.nodeOf bb t).nud = .prefix)
+    (hole : Ecal.Parse.run (f+1) ((TP.nodeOf bb t).binding + 20) (TP.st bb (TP.nodeOf bb h) ts') =
+      .ok v (TP.st bb nxn rest))
+    (hb : nxn.binding ≤ rbp) :
+    Ecal.Parse.run (f+3) rbp (TP.st bb (TP.nodeOf bb t) (h :: ts')) =
+      .ok ((TP.nodeOf bb t).add (some v)) (TP.st bb nxn rest) :=
+  TP.run_prefix f rbp bb t h ts' v nxn rest hh hpre hole hb
 
 end Ecal.Props.C08
